@@ -25,6 +25,8 @@ type verifSide struct {
 	idx       bool
 	idxUnique bool
 	idxDesc   bool
+	idxX      int  // expression part (group 6): 0 none, 1 (b + 1), 2 (b + 2)
+	idxXDesc  bool // its direction
 	idxHash   bool // index attributes (group 5)
 	idxCmt    int  // 0 none, 1 "x", 2 "y"
 	idxPrefix int  // 0 none, 1 prefix 3, 2 prefix 5
@@ -51,6 +53,16 @@ func verifSideOf(tag string, group int) verifSide {
 		s.fk = verifChoice(tag+"_fk", 2) == 1
 		s.chk = verifChoice(tag+"_chk", 2) == 1
 		s.chkExpr = "x"
+		return s
+	}
+	if group == 6 {
+		// expression parts: a column part and an optional expression part, each with its direction
+		s.idx = true
+		s.idxDesc = verifBool(tag + "_idx_desc")
+		s.idxX = verifChoice(tag+"_idx_x", 3)
+		if s.idxX != 0 {
+			s.idxXDesc = verifBool(tag + "_idx_xdesc")
+		}
 		return s
 	}
 	if group == 5 {
@@ -152,6 +164,9 @@ func (s verifSide) table(sch *schema.Schema, ref *schema.Table, perm bool) *sche
 	if s.idx {
 		i := schema.NewIndex("i").SetUnique(s.idxUnique)
 		i.AddParts(&schema.IndexPart{C: b, Desc: s.idxDesc})
+		if s.idxX != 0 {
+			i.AddParts(&schema.IndexPart{X: &schema.RawExpr{X: []string{"", "(b + 1)", "(b + 2)"}[s.idxX]}, Desc: s.idxXDesc})
+		}
 		if s.idxHash {
 			i.AddAttrs(&IndexType{T: IndexTypeHash})
 		}
@@ -225,6 +240,9 @@ func verifExpected(f, t verifSide) []verifWant {
 			k |= schema.ChangeUnique
 		}
 		if f.idxDesc != t.idxDesc {
+			k |= schema.ChangeParts
+		}
+		if f.idxX != t.idxX || f.idxX != 0 && f.idxXDesc != t.idxXDesc {
 			k |= schema.ChangeParts
 		}
 		if f.idxHash != t.idxHash {
@@ -398,4 +416,5 @@ func VerifHarness_C02_mysql_idx()     { verifC02(1, false) }
 func VerifHarness_C02_mysql_rest()    { verifC02(2, false) }
 func VerifHarness_C02_mysql_pairs()   { verifC02(3, false) }
 func VerifHarness_C02_mysql_idxattr() { verifC02(5, false) }
+func VerifHarness_C02_mysql_idxexpr() { verifC02(6, false) }
 func VerifHarness_C02_mysql_skip()    { verifC02(4, true) }
